@@ -133,10 +133,24 @@ macro_rules! unwrap_or {
     };
 }
 
+#[cfg(feature = "verif_hooks")]
+macro_rules! vpoint {
+    ($p:ident) => {
+        $crate::verif_hooks::point($crate::verif_hooks::Point::$p)
+    };
+}
+
+#[cfg(not(feature = "verif_hooks"))]
+macro_rules! vpoint {
+    ($p:ident) => {};
+}
+
 pub mod fasta;
 pub mod fastq;
 pub mod parallel;
 pub mod policy;
+#[cfg(feature = "verif_hooks")]
+pub mod verif_hooks;
 
 /// Remove a final '\r' from a byte slice
 #[inline]
